@@ -56,24 +56,24 @@ func init() {
 		})
 	clusterCheck("C02",
 		func() []Unit {
-			return scUnits(1, "write3", "crash3", "snap3", "snap3-trail1", "snap3-mono", "stale-suffix", "majority-restart", "member")
+			return scUnits(1, "write3", "write3-pipe", "crash3", "snap3", "snap3-pipe", "snap3-trail1", "snap3-mono", "stale-suffix", "majority-restart", "member")
 		},
 		func() []Unit {
-			return scUnits(2, "write3", "crash3", "snap3", "snap3-trail1", "snap3-mono", "stale-suffix", "majority-restart", "member", "fig8", "transfer")
+			return scUnits(2, "write3", "write3-pipe", "crash3", "snap3", "snap3-pipe", "snap3-trail1", "snap3-mono", "stale-suffix", "majority-restart", "member", "fig8", "transfer")
 		})
 	clusterCheck("C03",
 		func() []Unit {
-			return scUnits(1, "write3", "crash3", "fig8", "fig8-batch1", "fig8-paper", "majority-restart", "stale-suffix", "transfer", "member")
+			return scUnits(1, "write3", "crash3", "crash3-pipe", "fig8", "fig8-batch1", "fig8-paper", "majority-restart", "stale-suffix", "transfer", "member")
 		},
 		func() []Unit {
-			return scUnits(2, "write3", "crash3", "fig8", "fig8-batch1", "fig8-paper", "majority-restart", "stale-suffix", "transfer", "member", "member-race", "snap3")
+			return scUnits(2, "write3", "crash3", "crash3-pipe", "fig8", "fig8-batch1", "fig8-paper", "majority-restart", "stale-suffix", "transfer", "member", "member-race", "snap3")
 		})
 	clusterCheck("C04",
 		func() []Unit {
-			return append([]Unit{{Name: "enum-appendentries", Enum: enumC04}}, scUnits(1, "write3", "crash3", "fig8", "stale-suffix", "stale-suffix-trail", "snap3", "majority-restart")...)
+			return append([]Unit{{Name: "enum-appendentries", Enum: enumC04}}, scUnits(1, "write3", "write3-pipe", "crash3", "fig8", "stale-suffix", "stale-suffix-pipe", "stale-suffix-trail", "snap3", "majority-restart")...)
 		},
 		func() []Unit {
-			return append([]Unit{{Name: "enum-appendentries", Enum: enumC04}}, scUnits(2, "write3", "crash3", "fig8", "stale-suffix", "stale-suffix-trail", "snap3", "snap3-mono", "majority-restart", "member")...)
+			return append([]Unit{{Name: "enum-appendentries", Enum: enumC04}}, scUnits(2, "write3", "write3-pipe", "crash3", "fig8", "stale-suffix", "stale-suffix-pipe", "stale-suffix-trail", "snap3", "snap3-mono", "majority-restart", "member")...)
 		})
 	clusterCheck("C05",
 		func() []Unit {
@@ -90,8 +90,12 @@ func init() {
 			return append([]Unit{{Name: "enum-nextconfiguration", Enum: enumC07}}, scUnits(2, "member", "member-race", "transfer", "crash3")...)
 		})
 	clusterCheck("C08",
-		func() []Unit { return scUnits(1, "write3", "crash3", "transfer", "majority-restart") },
-		func() []Unit { return scUnits(2, "write3", "crash3", "transfer", "majority-restart", "fig8") })
+		func() []Unit {
+			return scUnits(1, "write3", "write3-slowfsm", "write3-pipe", "crash3", "crash3-slowfsm", "transfer", "transfer-pipe", "majority-restart")
+		},
+		func() []Unit {
+			return scUnits(2, "write3", "write3-slowfsm", "write3-pipe", "crash3", "crash3-slowfsm", "transfer", "transfer-slowfsm", "transfer-pipe", "majority-restart", "fig8")
+		})
 	clusterCheck("C10",
 		func() []Unit {
 			return scUnits(1, "write3", "crash3", "majority-restart", "member", "snap3", "snap3-mono")
